@@ -1,4 +1,5 @@
-(* C03P.v — proofs for C03 (synchronisation converges) over the model Sync.v. *)
+(* C03P.v — proofs for C03 (synchronisation converges) over the model Sync.v (code after the fixes
+   ca69f52 / bb1bffb / ad91329). *)
 From DV Require Import Sync SyncObs SyncP Run_C03.
 From Coq Require Import Lia.
 Open Scope Z_scope.
@@ -6,43 +7,43 @@ Open Scope Z_scope.
 Definition wf (S : sys) : Prop := forall p, nodup_ids (nodes (get p S)).
 Definition no_tombs (S : sys) : Prop := forall p, tombs (get p S) = [].
 
-(* ---------- one pull from a source without deletion records ---------- *)
-Lemma sync_day_notombs : forall src dst cnt ev d0, tombs src = [] -> exists ev',
-  sync_day false src (dst, cnt, ev) d0 =
-  ({| nodes := merge (nodes dst) (on_day d0 (nodes src)); tombs := tombs dst |},
-   (cnt + N.of_nat (length (filter (wanted (nodes dst)) (on_day d0 (nodes src)))))%N, ev').
+(* ====================================================================================== *)
+(* part 1: replicas without deletion records — a pull is the join                          *)
+(* ====================================================================================== *)
+Lemma sync_day_notombs : forall src dst cnt d0, tombs src = [] -> tombs dst = [] ->
+  sync_day src (dst, cnt) d0 =
+  ({| nodes := merge (nodes dst) (on_day d0 (nodes src)); tombs := [] |},
+   (cnt + N.of_nat (length (filter (wanted (nodes dst)) (on_day d0 (nodes src)))))%N).
 Proof.
-  intros src dst cnt ev d0 H. unfold sync_day. rewrite H.
-  cbn [tombs_on_day filter dedup_tombs fold_left existsb length Nat.eqb negb].
+  intros src dst cnt d0 Hs Hd. unfold sync_day. rewrite Hs. cbn [tombs_on_day filter fold_left]. rewrite Hd.
   match goal with |- context [filter ?f (on_day d0 (nodes src))] =>
     assert (Hf : filter f (on_day d0 (nodes src)) = filter (wanted (nodes dst)) (on_day d0 (nodes src)))
   end.
-  { apply filter_ext. intros o. cbn [negb orb]. destruct (wanted (nodes dst) o); reflexivity. }
-  rewrite Hf. unfold merge. eexists. reflexivity.
+  { apply filter_ext. intros o. cbn [below_tomb existsb negb]. apply Bool.andb_true_r. }
+  rewrite Hf. reflexivity.
 Qed.
 
-Lemma pull_fold : forall days src dst cnt ev, tombs src = [] ->
-  let r := fold_left (sync_day false src) days (dst, cnt, ev) in
-  nodes (fst (fst r)) = pull_nodes days (nodes dst) (nodes src) /\
-  tombs (fst (fst r)) = tombs dst /\
-  snd (fst r) = (cnt + N.of_nat (pull_count days (nodes dst) (nodes src)))%N.
+Lemma pull_fold : forall days src dst cnt, tombs src = [] -> tombs dst = [] ->
+  let r := fold_left (sync_day src) days (dst, cnt) in
+  nodes (fst r) = pull_nodes days (nodes dst) (nodes src) /\ tombs (fst r) = [] /\
+  snd r = (cnt + N.of_nat (pull_count days (nodes dst) (nodes src)))%N.
 Proof.
-  induction days as [|d0 rest IH]; intros src dst cnt ev H; cbn [fold_left pull_nodes pull_count].
-  - cbn. repeat split; try reflexivity. lia.
-  - destruct (sync_day_notombs src dst cnt ev d0 H) as [ev' E]. rewrite E.
-    specialize (IH src {| nodes := merge (nodes dst) (on_day d0 (nodes src)); tombs := tombs dst |}
-                   (cnt + N.of_nat (length (filter (wanted (nodes dst)) (on_day d0 (nodes src)))))%N ev' H).
+  induction days as [|d0 rest IH]; intros src dst cnt Hs Hd; cbn [fold_left pull_nodes pull_count].
+  - cbn. repeat split; try assumption. lia.
+  - rewrite (sync_day_notombs src dst cnt d0 Hs Hd).
+    specialize (IH src {| nodes := merge (nodes dst) (on_day d0 (nodes src)); tombs := [] |}
+                   (cnt + N.of_nat (length (filter (wanted (nodes dst)) (on_day d0 (nodes src)))))%N Hs eq_refl).
     cbn [nodes tombs] in IH. destruct IH as [I1 [I2 I3]]. repeat split; try assumption.
     rewrite I3. lia.
 Qed.
 
-Lemma pull_replica_notombs : forall dst src days, tombs src = [] ->
-  nodes (fst (fst (pull_replica false dst src days))) = pull_nodes days (nodes dst) (nodes src) /\
-  tombs (fst (fst (pull_replica false dst src days))) = tombs dst /\
-  snd (fst (pull_replica false dst src days)) = N.of_nat (pull_count days (nodes dst) (nodes src)).
+Lemma pull_replica_notombs : forall dst src days, tombs src = [] -> tombs dst = [] ->
+  nodes (fst (pull_replica dst src days)) = pull_nodes days (nodes dst) (nodes src) /\
+  tombs (fst (pull_replica dst src days)) = [] /\
+  snd (pull_replica dst src days) = N.of_nat (pull_count days (nodes dst) (nodes src)).
 Proof.
-  intros dst src days H. unfold pull_replica.
-  destruct (pull_fold days src dst 0%N no_events H) as [A [B C]]. repeat split; try assumption.
+  intros dst src days Hs Hd. unfold pull_replica.
+  destruct (pull_fold days src dst 0%N Hs Hd) as [A [B C]]. repeat split; assumption.
 Qed.
 
 Lemma days_cover_complete : forall dst src days,
@@ -56,30 +57,28 @@ Qed.
 
 (* filter_existing + write implement the join "greatest (mdate, signature) per row id" *)
 Theorem pull_is_join : forall dst src days x,
-  tombs src = [] -> nodup_ids (nodes src) ->
+  tombs src = [] -> tombs dst = [] -> nodup_ids (nodes src) ->
   days_cover days (needed_days dst src) = true ->
-  find_node x (nodes (fst (fst (pull_replica false dst src days)))) =
+  find_node x (nodes (fst (pull_replica dst src days))) =
   vjoin (find_node x (nodes dst)) (find_node x (nodes src)).
 Proof.
-  intros dst src days x Ht Hs Hc.
-  destruct (pull_replica_notombs dst src days Ht) as [A _]. rewrite A.
+  intros dst src days x Ht Hd Hs Hc.
+  destruct (pull_replica_notombs dst src days Ht Hd) as [A _]. rewrite A.
   apply lww_join; [exact Hs|]. apply days_cover_complete. exact Hc.
 Qed.
 
 (* between peers that show the same rows a further pull requests nothing *)
 Theorem converged_stays_quiet : forall dst src days,
-  tombs src = [] -> nodup_ids (nodes src) ->
+  tombs src = [] -> tombs dst = [] -> nodup_ids (nodes src) ->
   (forall x, find_node x (nodes dst) = find_node x (nodes src)) ->
-  snd (fst (pull_replica false dst src days)) = 0%N /\
-  nodes (fst (fst (pull_replica false dst src days))) = nodes dst.
+  snd (pull_replica dst src days) = 0%N /\ nodes (fst (pull_replica dst src days)) = nodes dst.
 Proof.
-  intros dst src days Ht Hs Hv.
-  destruct (pull_replica_notombs dst src days Ht) as [A [_ C]].
+  intros dst src days Ht Hd Hs Hv.
+  destruct (pull_replica_notombs dst src days Ht Hd) as [A [_ C]].
   pose proof (views_le_count days _ _ (same_view_le _ _ Hs Hv)) as H0.
   rewrite C, A, H0. split; [reflexivity|]. apply (proj1 (pull_count_zero days _ _ H0)).
 Qed.
 
-(* ---------- steps preserve the invariants (histories without deletions) ---------- *)
 Lemma wf_set : forall S p r, wf S -> nodup_ids (nodes r) -> wf (set p r S).
 Proof.
   intros S p r H Hr q. rewrite get_set. destruct (N.eqb q p && Nat.ltb (N.to_nat p) (length S))%bool; [exact Hr|apply H].
@@ -92,8 +91,7 @@ Qed.
 Definition is_delete (o : sop) : bool := match o with Delete _ _ _ => true | _ => false end.
 
 Lemma step_inv : forall S o, wf S -> no_tombs S -> is_delete o = false ->
-  wf (fst (fst (step false S o))) /\ no_tombs (fst (fst (step false S o))) /\
-  length (fst (fst (step false S o))) = length S.
+  wf (fst (fst (step S o))) /\ no_tombs (fst (fst (step S o))) /\ length (fst (fst (step S o))) = length S.
 Proof.
   intros S o Hw Ht Hd. destruct o as [p x t sg|p x t sg|p x t|d s days]; cbn [step is_delete] in *.
   - cbn [fst]. repeat split.
@@ -105,108 +103,172 @@ Proof.
     + apply no_tombs_set; [exact Ht|]. cbn [tombs]. apply Ht.
     + apply length_set.
   - discriminate.
-  - destruct (pull_replica_notombs (get d S) (get s S) days (Ht s)) as [A [B _]].
-    destruct (pull_replica false (get d S) (get s S) days) as [[r cnt] ev]. cbn [fst snd] in *.
+  - destruct (pull_replica_notombs (get d S) (get s S) days (Ht s) (Ht d)) as [A [B _]].
+    destruct (pull_replica (get d S) (get s S) days) as [r cnt]. cbn [fst snd] in *.
     repeat split.
     + apply wf_set; [exact Hw|]. rewrite A. apply nodup_ids_pull_nodes. apply Hw.
-    + apply no_tombs_set; [exact Ht|]. rewrite B. apply Ht.
+    + apply no_tombs_set; [exact Ht|]. exact B.
     + apply length_set.
-Qed.
-
-Lemma forallb_app_true : forall {A} (f : A -> bool) l1 l2, forallb f (l1 ++ l2) = true -> forallb f l1 = true /\ forallb f l2 = true.
-Proof. intros. rewrite forallb_app in H. apply Bool.andb_true_iff in H. exact H. Qed.
-
-Lemma run_inv : forall ops S, wf S -> no_tombs S -> no_deletes ops = true ->
-  wf (run_sys false S ops) /\ no_tombs (run_sys false S ops) /\ length (run_sys false S ops) = length S.
-Proof.
-  induction ops as [|o ops IH]; intros S Hw Ht Hd; cbn [run_sys]; [auto|].
-  unfold no_deletes in Hd. cbn [forallb] in Hd. apply Bool.andb_true_iff in Hd. destruct Hd as [Ho Hd].
-  assert (Hnd : is_delete o = false) by (destruct o; cbn in *; congruence).
-  destruct (step_inv S o Hw Ht Hnd) as [W [T L]].
-  destruct (IH _ W T Hd) as [W' [T' L']]. repeat split; try assumption. congruence.
-Qed.
-
-Lemma run_sys_app : forall a b S, run_sys false S (a ++ b) = run_sys false (run_sys false S a) b.
-Proof. induction a as [|o a IH]; intros b S; cbn [app run_sys]; [reflexivity|apply IH]. Qed.
-
-Lemma run_complete_app : forall a b S,
-  run_complete false S (a ++ b) = (run_complete false S a && run_complete false (run_sys false S a) b)%bool.
-Proof.
-  induction a as [|o a IH]; intros b S; cbn [app run_complete run_sys]; [reflexivity|].
-  rewrite IH. rewrite Bool.andb_assoc. reflexivity.
 Qed.
 
 Lemma init_wf : forall n, wf (init_sys n) /\ no_tombs (init_sys n) /\ length (init_sys n) = N.to_nat n.
 Proof.
-  intros n. unfold init_sys. repeat split.
-  - intros p. unfold get. destruct (nth_in_or_default (N.to_nat p) (repeat empty_replica (N.to_nat n)) empty_replica) as [H|H].
-    + apply repeat_spec in H. rewrite H. constructor.
-    + rewrite H. constructor.
-  - intros p. unfold get. destruct (nth_in_or_default (N.to_nat p) (repeat empty_replica (N.to_nat n)) empty_replica) as [H|H].
-    + apply repeat_spec in H. rewrite H. reflexivity.
-    + rewrite H. reflexivity.
+  intros n. repeat split.
+  - intros p. apply (g_ids _ (init_good n p)).
+  - intros p. unfold get, init_sys.
+    destruct (nth_in_or_default (N.to_nat p) (repeat empty_replica (N.to_nat n)) empty_replica) as [H|H];
+      [apply repeat_spec in H|]; rewrite H; reflexivity.
   - apply repeat_length.
 Qed.
 
-(* ---------- the quiet final rounds ---------- *)
-Lemma quiet_pull_fixed : forall S d s days, no_tombs S ->
-  snd (fst (step false S (Pull d s days))) = 0 ->
-  fst (fst (step false S (Pull d s days))) = S /\
-  pull_count days (nodes (get d S)) (nodes (get s S)) = O.
+(* ====================================================================================== *)
+(* part 2: with deletions — quiescence forces agreement                                    *)
+(* ====================================================================================== *)
+Lemma length_step : forall S o, length (fst (fst (step S o))) = length S.
 Proof.
-  intros S d s days Ht H. cbn [step] in *.
-  destruct (pull_replica_notombs (get d S) (get s S) days (Ht s)) as [A [B C]].
-  destruct (pull_replica false (get d S) (get s S) days) as [[r cnt] ev]. cbn [fst snd] in *.
-  assert (Hc : pull_count days (nodes (get d S)) (nodes (get s S)) = O) by lia.
-  split; [|exact Hc].
-  assert (Hr : r = get d S).
-  { destruct r as [rn rt]. cbn [nodes tombs] in A, B.
-    rewrite (proj1 (pull_count_zero days _ _ Hc)) in A. subst rn rt. destruct (get d S); reflexivity. }
-  rewrite Hr. apply set_get_same.
+  intros S o. destruct o as [p x t sg|p x t sg|p x t|d s days]; cbn [step].
+  - apply length_set.
+  - destruct (find_node x (nodes (get p S))); cbn [fst]; [apply length_set|reflexivity].
+  - destruct (find_node x (nodes (get p S))); cbn [fst]; [apply length_set|reflexivity].
+  - destruct (pull_replica (get d S) (get s S) days). cbn [fst]. apply length_set.
+Qed.
+Lemma length_run : forall ops S, length (run_sys S ops) = length S.
+Proof. induction ops as [|o ops IH]; intros S; cbn [run_sys]; [reflexivity|]. rewrite IH. apply length_step. Qed.
+
+(* a pull whose selected days each move nothing moves nothing *)
+Lemma pull_still_fixed : forall days dst src, pull_still dst src days = true -> pull_replica dst src days = (dst, 0%N).
+Proof.
+  intros days dst src H. unfold pull_replica. unfold pull_still in H. rewrite forallb_forall in H.
+  induction days as [|d days IH]; [reflexivity|]. cbn [fold_left].
+  pose proof (H d (or_introl eq_refl)) as Hd. unfold day_still in Hd.
+  destruct (sync_day src (dst, 0%N) d) as [r c]. apply Bool.andb_true_iff in Hd. destruct Hd as [Hc Hr].
+  apply N.eqb_eq in Hc. apply replica_eqb_eq in Hr. subst. apply IH. intros y Hy. apply H. right. exact Hy.
 Qed.
 
-Lemma final_fixed : forall final S, no_tombs S -> only_pulls final = true ->
-  forallb (Z.eqb 0) (run_flags false S final) = true ->
-  run_complete false S final = true ->
-  run_sys false S final = S /\
-  (forall d s days, In (Pull d s days) final ->
-     pull_count days (nodes (get d S)) (nodes (get s S)) = O /\
-     days_cover days (needed_days (get d S) (get s S)) = true).
+Lemma still_fixed : forall final S, still S final = true ->
+  run_sys S final = S /\ only_pulls final = true /\
+  (forall d s days, In (Pull d s days) final -> pull_still (get d S) (get s S) days = true).
 Proof.
-  induction final as [|o final IH]; intros S Ht Hp Hq Hc.
-  - split; [reflexivity|]. intros d s days [].
-  - cbn [only_pulls forallb] in Hp. apply Bool.andb_true_iff in Hp. destruct Hp as [Ho Hp].
-    destruct o as [p x t sg|p x t sg|p x t|d s days]; try discriminate.
-    cbn [run_flags run_sys run_complete] in *.
-    apply Bool.andb_true_iff in Hc. destruct Hc as [Hc0 Hc].
-    assert (Hflag : snd (fst (step false S (Pull d s days))) = 0).
-    { destruct (step false S (Pull d s days)) as [[S' flag] ev]. cbn [forallb] in Hq.
-      apply Bool.andb_true_iff in Hq. destruct Hq as [Hf _]. apply Z.eqb_eq in Hf. cbn [fst snd]. congruence. }
-    destruct (quiet_pull_fixed S d s days Ht Hflag) as [Hs Hcnt].
-    rewrite Hs in Hc.
-    assert (Hq' : forallb (Z.eqb 0) (run_flags false S final) = true).
-    { destruct (step false S (Pull d s days)) as [[S' flag] ev]. cbn [fst] in Hs. subst S'. cbn [forallb] in Hq.
-      apply Bool.andb_true_iff in Hq. tauto. }
-    rewrite Hs. clear Hq. rename Hq' into Hq.
-    destruct (IH S Ht Hp Hq Hc) as [IH1 IH2]. split; [exact IH1|].
-    intros d' s' days' [Heq|Hin].
-    + inversion Heq; subst. split; assumption.
-    + apply IH2. exact Hin.
+  induction final as [|o final IH]; intros S H; [repeat split; intros d s days []|].
+  destruct o as [p x t sg|p x t sg|p x t|d s days]; cbn [still] in H; try discriminate.
+  apply Bool.andb_true_iff in H. destruct H as [H1 H2]. destruct (IH S H2) as [I1 [I2 I3]].
+  assert (E : fst (fst (step S (Pull d s days))) = S).
+  { cbn [step]. rewrite (pull_still_fixed _ _ _ H1). cbn [fst]. apply set_get_same. }
+  repeat split.
+  - cbn [run_sys]. rewrite E. exact I1.
+  - cbn [only_pulls forallb]. exact I2.
+  - intros d' s' days' [Heq|Hin]; [inversion Heq; subst; exact H1|apply I3; exact Hin].
 Qed.
 
-(* ---------- from pairwise quiescence to agreement ---------- *)
+Lemma run_complete_still : forall final S, still S final = true -> run_complete S final = true ->
+  forall d s days, In (Pull d s days) final -> days_cover days (needed_days (get d S) (get s S)) = true.
+Proof.
+  induction final as [|o final IH]; intros S H Hc d s days Hin; [inversion Hin|].
+  destruct o as [p x t sg|p x t sg|p x t|d0 s0 days0]; cbn [still] in H; try discriminate.
+  apply Bool.andb_true_iff in H. destruct H as [H1 H2].
+  cbn [run_complete] in Hc. apply Bool.andb_true_iff in Hc. destruct Hc as [Hc0 Hc].
+  assert (E : fst (fst (step S (Pull d0 s0 days0))) = S).
+  { cbn [step]. rewrite (pull_still_fixed _ _ _ H1). cbn [fst]. apply set_get_same. }
+  rewrite E in Hc. destruct Hin as [Heq|Hin]; [inversion Heq; subst; exact Hc0|apply (IH S H2 Hc); exact Hin].
+Qed.
+
+(* what one still day says *)
+Lemma day_still_facts : forall dst src d, day_still dst src d = true ->
+  let dst1 := fold_left apply_tomb (tombs_on_day d (tombs src)) dst in
+  nodes dst1 = nodes dst /\ tombs dst1 = tombs dst /\
+  filter (fun o => wanted (nodes dst1) o && negb (below_tomb (tombs dst1) o))%bool (on_day d (nodes src)) = [].
+Proof.
+  intros dst src d H. unfold day_still, sync_day in H.
+  set (dst1 := fold_left apply_tomb (tombs_on_day d (tombs src)) dst) in *.
+  set (fetch := filter (fun o => (wanted (nodes dst1) o && negb (below_tomb (tombs dst1) o))%bool) (on_day d (nodes src))) in *.
+  apply Bool.andb_true_iff in H. destruct H as [Hc Hr]. apply N.eqb_eq in Hc. apply replica_eqb_eq in Hr.
+  assert (Hf : fetch = []) by (destruct fetch; [reflexivity|cbn [length] in Hc; lia]).
+  rewrite Hf in Hr. cbn [fold_left] in Hr.
+  pose proof (f_equal nodes Hr) as E1. pose proof (f_equal tombs Hr) as E2. cbn [nodes tombs] in E1, E2.
+  cbv zeta. repeat split; assumption.
+Qed.
+
+Lemma in_days : forall d days, existsb (Z.eqb d) days = true -> In d days.
+Proof. intros d days H. apply existsb_exists in H. destruct H as [y [Hy E]]. apply Z.eqb_eq in E. subst. exact Hy. Qed.
+
+(* a complete pull that moves nothing: the receiver holds every deletion record of the source ... *)
+Lemma still_tombs : forall dst src days, keys_unique (tombs src) ->
+  pull_still dst src days = true -> days_cover days (needed_days dst src) = true ->
+  forall t, In t (tombs src) -> In t (tombs dst).
+Proof.
+  intros dst src days Hk Hs Hc t Ht.
+  destruct (has_tomb (tombs dst) t) eqn:E; [apply has_tomb_in; exact E|].
+  unfold days_cover, needed_days in Hc. rewrite forallb_app in Hc. apply Bool.andb_true_iff in Hc. destruct Hc as [_ Hc].
+  rewrite forallb_forall in Hc.
+  assert (Hd : In (day (t_ddate t)) days).
+  { apply in_days. apply Hc. apply in_map_iff. exists t. split; [reflexivity|]. apply filter_In. split; [exact Ht|]. rewrite E. reflexivity. }
+  unfold pull_still in Hs. rewrite forallb_forall in Hs.
+  destruct (day_still_facts _ _ _ (Hs _ Hd)) as [_ [Ht2 _]].
+  rewrite <- Ht2, tombs_fold_apply.
+  apply (fold_put_has (tombs src)); try assumption.
+  - intros u Hu. unfold tombs_on_day in Hu. apply filter_In in Hu. tauto.
+  - left. unfold tombs_on_day. apply filter_In. split; [exact Ht|apply Z.eqb_refl].
+Qed.
+
+(* ... and every row of the source is either not newer than the receiver's version, or at or below a
+   deletion record the receiver holds *)
+Lemma still_rows : forall dst src days,
+  pull_still dst src days = true -> days_cover days (needed_days dst src) = true ->
+  forall n, In n (nodes src) -> wanted (nodes dst) n = false \/ below_tomb (tombs dst) n = true.
+Proof.
+  intros dst src days Hs Hc n Hn.
+  destruct (wanted (nodes dst) n) eqn:W; [right|left; reflexivity].
+  unfold days_cover, needed_days in Hc. rewrite forallb_app in Hc. apply Bool.andb_true_iff in Hc. destruct Hc as [Hc _].
+  rewrite forallb_forall in Hc.
+  assert (Hd : In (day (n_mdate n)) days).
+  { apply in_days. apply Hc. apply in_map_iff. exists n. split; [reflexivity|]. apply filter_In. split; assumption. }
+  unfold pull_still in Hs. rewrite forallb_forall in Hs.
+  destruct (day_still_facts _ _ _ (Hs _ Hd)) as [Hn1 [Ht1 Hf]]. rewrite Hn1, Ht1 in Hf.
+  destruct (below_tomb (tombs dst) n) eqn:B; [reflexivity|]. exfalso.
+  assert (In n (filter (fun o => (wanted (nodes dst) o && negb (below_tomb (tombs dst) o))%bool) (on_day (day (n_mdate n)) (nodes src)))).
+  { apply filter_In. split; [unfold on_day; apply filter_In; split; [exact Hn|apply Z.eqb_refl]|]. rewrite W, B. reflexivity. }
+  rewrite Hf in H. inversion H.
+Qed.
+
 Lemma row_eqb_refl : forall n, row_eqb n n = true.
-Proof. intros n. unfold row_eqb. rewrite N.eqb_refl, Z.eqb_refl, N.eqb_refl. reflexivity. Qed.
+Proof. intros n. apply row_eqb_eq. reflexivity. Qed.
 
-Lemma same_view_agree : forall a b, nodup_ids (nodes a) -> nodup_ids (nodes b) -> tombs a = [] -> tombs b = [] ->
-  (forall x, find_node x (nodes a) = find_node x (nodes b)) -> agree a b = true.
+Lemma same_view_rows : forall a b, nodup_ids (nodes a) -> nodup_ids (nodes b) ->
+  (forall x, find_node x (nodes a) = find_node x (nodes b)) -> same_rows a b = true.
 Proof.
-  intros a b Ha Hb Ta Tb Hv. unfold agree, same_rows, same_tombs. rewrite Ta, Tb. cbn [tombs_subset forallb andb].
-  rewrite Bool.andb_true_r. apply Bool.andb_true_iff. split; unfold rows_subset; apply forallb_forall; intros n Hin.
-  - pose proof (find_node_in _ n Ha Hin) as F. rewrite Hv in F. apply find_node_some in F. destruct F as [F _].
-    unfold has_row. apply existsb_exists. exists n. split; [exact F|apply row_eqb_refl].
-  - pose proof (find_node_in _ n Hb Hin) as F. rewrite <- Hv in F. apply find_node_some in F. destruct F as [F _].
-    unfold has_row. apply existsb_exists. exists n. split; [exact F|apply row_eqb_refl].
+  intros a b Ha Hb Hv. unfold same_rows. apply Bool.andb_true_iff. split; unfold rows_subset; apply forallb_forall; intros n Hin.
+  - pose proof (find_node_in _ n Ha Hin) as F. rewrite Hv in F. apply find_node_some in F. apply has_row_in. apply F.
+  - pose proof (find_node_in _ n Hb Hin) as F. rewrite <- Hv in F. apply find_node_some in F. apply has_row_in. apply F.
+Qed.
+
+(* two replicas that pull from each other completely without moving anything agree *)
+Lemma mutual_still_agree : forall a b da db, good a -> good b ->
+  pull_still a b da = true -> days_cover da (needed_days a b) = true ->
+  pull_still b a db = true -> days_cover db (needed_days b a) = true ->
+  agree a b = true.
+Proof.
+  intros a b da db Ga Gb Sa Ca Sb Cb.
+  pose proof (still_tombs a b da (g_keys _ Gb) Sa Ca) as Tba.   (* tombs b ⊆ tombs a *)
+  pose proof (still_tombs b a db (g_keys _ Ga) Sb Cb) as Tab.   (* tombs a ⊆ tombs b *)
+  assert (Lab : views_le (nodes a) (nodes b)).
+  { intros n Hn. destruct (still_rows a b da Sa Ca n Hn) as [W|B]; [exact W|]. exfalso.
+    destruct (below_tomb_true _ _ B) as [t [Ht [Hid Hle]]].
+    pose proof (g_inv _ Gb n t Hn (Tab t Ht) Hid). lia. }
+  assert (Lba : views_le (nodes b) (nodes a)).
+  { intros n Hn. destruct (still_rows b a db Sb Cb n Hn) as [W|B]; [exact W|]. exfalso.
+    destruct (below_tomb_true _ _ B) as [t [Ht [Hid Hle]]].
+    pose proof (g_inv _ Ga n t Hn (Tba t Ht) Hid). lia. }
+  unfold agree. apply Bool.andb_true_iff. split.
+  - apply same_view_rows; [apply Ga|apply Gb|]. apply views_le_antisym; [apply Ga|apply Gb|exact Lab|exact Lba].
+  - unfold same_tombs, tombs_subset. apply Bool.andb_true_iff. split; apply forallb_forall; intros t Ht; apply has_tomb_in; auto.
+Qed.
+
+Lemma agree_refl : forall a, agree a a = true.
+Proof.
+  intros a. unfold agree, same_rows, same_tombs, rows_subset, tombs_subset.
+  assert (R : forallb (has_row (nodes a)) (nodes a) = true) by (apply forallb_forall; intros n Hn; apply has_row_in; exact Hn).
+  assert (T : forallb (has_tomb (tombs a)) (tombs a) = true) by (apply forallb_forall; intros n Hn; apply has_tomb_in; exact Hn).
+  rewrite R, T. reflexivity.
 Qed.
 
 Lemma all_agree_pairwise : forall L : sys,
@@ -236,90 +298,93 @@ Proof.
     exists days. exact Hin.
 Qed.
 
-Lemma known_nil_complete : forall c, known_C03 c = [] -> run_complete false (init_sys (c03_n c)) (c03_ops c) = true.
+Lemma known_nil_complete : forall c, known_C03 c = [] -> run_complete (init_sys (c03_n c)) (c03_ops c) = true.
 Proof.
-  intros c H. unfold known_C03 in H.
-  destruct (run_complete false (init_sys (c03_n c)) (c03_ops c)); [reflexivity|].
-  apply app_eq_nil in H. destruct H as [_ H]. apply app_eq_nil in H. destruct H as [_ H].
-  apply app_eq_nil in H. destruct H as [_ H]. discriminate.
+  intros c H. unfold known_C03 in H. destruct (run_complete (init_sys (c03_n c)) (c03_ops c)); [reflexivity|discriminate].
 Qed.
 
-(* C03 outside the known classes: a history without deletions whose pulls all selected the days a
-   complete log comparison selects, and whose last rounds (every ordered pair pulled) request
-   nothing, leaves every member with the same rows and the same (empty) deletion records *)
+(* C03 outside the one class that is still open: any number of peers, any history of creations,
+   updates (any clocks inside the envelope, same-millisecond ties included), DELETIONS and pulls in any
+   order, every pull having selected the days a complete comparison selects (known_C03 = []), ending
+   with rounds in which every ordered pair pulls and nothing moves: every member holds the same rows
+   and the same deletion records *)
 Theorem outside_known : forall n hist final,
   let c := C03Case n hist final in
-  known_C03 c = [] -> no_deletes (hist ++ final) = true ->
-  only_pulls final = true -> full_round n final = true -> c03_quiet c = true ->
-  all_agree (run_sys false (init_sys n) (hist ++ final)) = true.
+  known_C03 c = [] -> c03_envelope c = true ->
+  full_round n final = true -> c03_quiet c = true ->
+  all_agree (run_sys (init_sys n) (hist ++ final)) = true.
 Proof.
-  intros n hist final c Hk Hnd Hp Hfr Hq.
+  intros n hist final c Hk He Hfr Hq.
   pose proof (known_nil_complete c Hk) as Hc. cbn [c c03_n c03_ops] in Hc.
   rewrite run_complete_app in Hc. apply Bool.andb_true_iff in Hc. destruct Hc as [_ Hc].
-  unfold no_deletes in Hnd. destruct (forallb_app_true _ _ _ Hnd) as [Hnd1 Hnd2].
-  destruct (init_wf n) as [W0 [T0 L0]].
-  destruct (run_inv hist (init_sys n) W0 T0 Hnd1) as [W1 [T1 L1]].
-  set (S1 := run_sys false (init_sys n) hist) in *.
-  unfold c03_quiet in Hq. cbn [c c03_n c03_hist c03_final] in Hq. fold S1 in Hq.
-  destruct (final_fixed final S1 T1 Hp Hq Hc) as [Hfix Hpulls].
+  unfold c03_envelope in He. apply Bool.negb_true_iff in He. cbn [c c03_n c03_ops] in He.
+  rewrite run_guard_app in He. apply Bool.orb_false_iff in He. destruct He as [He _].
+  pose proof (run_good hist (init_sys n) (init_good n) He) as G.
+  unfold c03_quiet in Hq. cbn [c c03_n c03_hist c03_final] in Hq.
+  set (S1 := run_sys (init_sys n) hist) in *.
+  destruct (still_fixed final S1 Hq) as [Hfix [_ Hst]].
+  pose proof (run_complete_still final S1 Hq Hc) as Hcov.
   rewrite run_sys_app. fold S1. rewrite Hfix.
-  apply all_agree_pairwise. intros i j Hi Hj.
-  rewrite L1, L0 in Hi, Hj.
+  assert (L1 : length S1 = N.to_nat n).
+  { unfold S1. rewrite length_run. apply repeat_length. }
+  apply all_agree_pairwise. intros i j Hi Hj. rewrite L1 in Hi, Hj.
   assert (Gi : nth i S1 empty_replica = get (N.of_nat i) S1) by (unfold get; rewrite Nat2N.id; reflexivity).
   assert (Gj : nth j S1 empty_replica = get (N.of_nat j) S1) by (unfold get; rewrite Nat2N.id; reflexivity).
   rewrite Gi, Gj.
-  apply same_view_agree; try apply W1; try apply T1.
-  destruct (Nat.eq_dec i j) as [->|Hne]; [reflexivity|].
+  destruct (Nat.eq_dec i j) as [->|Hne]; [apply agree_refl|].
   assert (Hne' : N.of_nat i <> N.of_nat j) by (intros E; apply Hne; apply Nat2N.inj; exact E).
   destruct (full_round_pull n final (N.of_nat i) (N.of_nat j) Hfr (in_peers n i Hi) (in_peers n j Hj) Hne') as [d1 H1].
   assert (Hne'' : N.of_nat j <> N.of_nat i) by congruence.
   destruct (full_round_pull n final (N.of_nat j) (N.of_nat i) Hfr (in_peers n j Hj) (in_peers n i Hi) Hne'') as [d2 H2].
-  destruct (Hpulls _ _ _ H1) as [C1 K1]. destruct (Hpulls _ _ _ H2) as [C2 K2].
-  apply views_le_antisym; try apply W1.
-  - apply (quiet_complete_le d1); [exact C1|apply days_cover_complete; exact K1].
-  - apply (quiet_complete_le d2); [exact C2|apply days_cover_complete; exact K2].
+  apply (mutual_still_agree _ _ d1 d2); try apply G.
+  - apply (Hst _ _ _ H1).
+  - apply (Hcov _ _ _ H1).
+  - apply (Hst _ _ _ H2).
+  - apply (Hcov _ _ _ H2).
 Qed.
 
-(* ---------- closed witnesses ---------- *)
-(* class 3: both peers delete one row on the same day; the second peer never stores the first
-   peer's deletion record, the day is exchanged for ever and the deletion logs differ *)
-Definition witness_collapse : c03case :=
-  C03Case 2%N
-    [Create 0%N 1%N 1000 1%N; Pull 1%N 0%N [0]; Delete 0%N 1%N 2000; Delete 1%N 1%N 3000; Pull 0%N 1%N [0]]
-    [Pull 1%N 0%N [0]; Pull 0%N 1%N []; Pull 1%N 0%N [0]; Pull 0%N 1%N []].
-Lemma refuted_collapse : spec_C03 witness_collapse (run_C03 witness_collapse) = false /\ known_C03 witness_collapse = [3].
-Proof. vm_compute. split; reflexivity. Qed.
-
-(* class 2: a deletion record removes another version than the one it names — here the version the
-   same pull has just fetched (records of the row on two days): the pull 1<-0 ends without the row
-   although peer 0 shows it *)
-Definition witness_other_version : c03case :=
-  C03Case 3%N
-    [Create 0%N 1%N 3000 1%N; Pull 1%N 0%N [0]; Pull 2%N 0%N [0]; Update 1%N 1%N 63000 2%N;
-     Delete 0%N 1%N 123000; Delete 2%N 1%N 86403000; Pull 0%N 2%N [0; 86400000]; Pull 0%N 1%N [0];
-     Pull 1%N 0%N [0; 86400000];
-     Pull 1%N 0%N [0]; Pull 2%N 0%N [0; 86400000]; Pull 2%N 0%N [0]]
-    [Pull 0%N 1%N []; Pull 0%N 2%N []; Pull 1%N 0%N []; Pull 1%N 2%N []; Pull 2%N 0%N []; Pull 2%N 1%N []].
-Lemma refuted_other_version :
-  spec_C03 witness_other_version (run_C03 witness_other_version) = false /\ known_C03 witness_other_version = [2].
-Proof. vm_compute. split; reflexivity. Qed.
-
-(* class 4: if the log comparison skips a day on which the source holds a row the receiver lacks
-   (history-hash shortcut, stale daily hash), that row is never delivered by this pair *)
+(* ---------- closed witnesses / regression examples ---------- *)
+(* class 4 (open): if the log comparison skips a day on which the source holds a row the receiver lacks
+   (history-hash shortcut), that row is never delivered by this pair *)
 Definition witness_skipped_day : c03case :=
   C03Case 2%N [Create 0%N 1%N 1000 1%N] [Pull 1%N 0%N []; Pull 0%N 1%N []; Pull 1%N 0%N []; Pull 0%N 1%N []].
 Lemma refuted_skipped_day : spec_C03 witness_skipped_day (run_C03 witness_skipped_day) = false /\ known_C03 witness_skipped_day = [4].
 Proof. vm_compute. split; reflexivity. Qed.
 
-(* the hypotheses of [outside_known] are satisfiable, with rows really moving and a same-millisecond tie *)
+(* formerly class 3 (fixed by bb1bffb): both peers delete one row on the same day; both now hold both records *)
+Definition witness_two_records : c03case :=
+  C03Case 2%N
+    [Create 0%N 1%N 1000 1%N; Pull 1%N 0%N [0]; Delete 0%N 1%N 2000; Delete 1%N 1%N 3000; Pull 0%N 1%N [0]; Pull 1%N 0%N [0]]
+    [Pull 0%N 1%N []; Pull 1%N 0%N []; Pull 0%N 1%N []; Pull 1%N 0%N []].
+Lemma two_records_hold : spec_C03 witness_two_records (run_C03 witness_two_records) = true /\ known_C03 witness_two_records = [].
+Proof. vm_compute. split; reflexivity. Qed.
+
+(* formerly class 2 (fixed by ad91329): records of the old version on two days meet the newer version:
+   the newer version survives everywhere *)
+Definition witness_other_version : c03case :=
+  C03Case 3%N
+    [Create 0%N 1%N 3000 1%N; Pull 1%N 0%N [0]; Pull 2%N 0%N [0]; Update 1%N 1%N 63000 2%N;
+     Delete 0%N 1%N 123000; Delete 2%N 1%N 86403000; Pull 0%N 2%N [0; 86400000]; Pull 0%N 1%N [0];
+     Pull 1%N 0%N [0; 86400000]; Pull 2%N 0%N [0; 86400000]; Pull 2%N 1%N []]
+    [Pull 0%N 1%N []; Pull 0%N 2%N []; Pull 1%N 0%N []; Pull 1%N 2%N []; Pull 2%N 0%N []; Pull 2%N 1%N []].
+Lemma other_version_holds :
+  spec_C03 witness_other_version (run_C03 witness_other_version) = true /\ known_C03 witness_other_version = [] /\
+  map (fun r => (map n_mdate (nodes r), length (tombs r))) (run_sys (init_sys 3%N) (c03_ops witness_other_version)) =
+  [([63000], 2%nat); ([63000], 2%nat); ([63000], 2%nat)].
+Proof. vm_compute. repeat split; reflexivity. Qed.
+
+(* the hypotheses of [outside_known] are satisfiable: rows moving, a same-millisecond tie, a deletion
+   racing an update *)
 Definition example_ok : c03case :=
   C03Case 3%N
     [Create 0%N 1%N 1000 2%N; Pull 1%N 0%N [0]; Update 1%N 1%N 86401000 5%N; Update 0%N 1%N 86401000 4%N;
-     Create 2%N 2%N 500 1%N; Pull 2%N 1%N [86400000]; Pull 0%N 2%N [0; 86400000]; Pull 1%N 2%N [0]; Pull 1%N 0%N []; Pull 2%N 0%N []]
+     Create 2%N 2%N 500 1%N; Pull 2%N 1%N [86400000]; Pull 0%N 2%N [0; 86400000]; Delete 0%N 2%N 90000000;
+     Pull 1%N 2%N [0]; Pull 1%N 0%N [86400000]; Pull 2%N 0%N [86400000]]
     [Pull 0%N 1%N []; Pull 0%N 2%N []; Pull 1%N 0%N []; Pull 1%N 2%N []; Pull 2%N 0%N []; Pull 2%N 1%N []].
 Lemma nonvacuous :
-  known_C03 example_ok = [] /\ no_deletes (c03_ops example_ok) = true /\ only_pulls (c03_final example_ok) = true /\
+  known_C03 example_ok = [] /\ c03_envelope example_ok = true /\
   full_round 3%N (c03_final example_ok) = true /\ c03_quiet example_ok = true /\
   spec_C03 example_ok (run_C03 example_ok) = true /\
-  map (fun r => map n_sig (nodes r)) (run_sys false (init_sys 3%N) (c03_ops example_ok)) <> [[]; []; []].
-Proof. vm_compute. repeat split; try reflexivity. discriminate. Qed.
+  map (fun r => (map n_sig (nodes r), length (tombs r))) (run_sys (init_sys 3%N) (c03_ops example_ok)) =
+  [([5%N], 1%nat); ([5%N], 1%nat); ([5%N], 1%nat)].
+Proof. vm_compute. repeat split; reflexivity. Qed.
